@@ -255,7 +255,15 @@ fn run_cursor(t: i32, other: i32, word: &[u8], seed: u64, case: &str, rep: &mut 
 }
 
 fn run_path(t: i32, other: i32, word: &[u8], seed: u64, dir: &str, case: &str, rep: &mut Report) {
-    let base = format!("{}/{}", dir, case.replace(':', "_"));
+    // file-name styles: plain, dots inside the stem, spaces / non-ASCII (the three files of a
+    // data set share the stem: <stem>.shp, <stem>.shx, <stem>.dbf)
+    let plain = case.replace(':', "_");
+    let stem = match word.len() % 3 {
+        1 => format!("{}.2024.v2", plain),
+        2 => format!("{} \u{e9}", plain),
+        _ => plain,
+    };
+    let base = format!("{}/{}", dir, stem);
     let path = format!("{}.shp", base);
     let res = panicmon::catch(|| -> Result<Vec<bool>, Error> {
         let w = Writer::from_path(&path, table_builder())?;
